@@ -217,8 +217,12 @@ class C11:
                                               "choices": [], "trace": [], "outcome": "done"})
                 elif fails:
                     res["violations"].append({"keys": sorted({f[0] for f in fails}), "fails": [], "program": {}, "choices": [], "trace": [], "outcome": "done"})
-        await self.liveness(env, unit, res)
-        await self.reuse_and_copy(env, unit, res)
+        for part in (self.liveness, self.reuse_and_copy):
+            try:
+                await part(env, unit, res)
+            except Exception as e:  # noqa: BLE001 - using the signals of a valid owner must not raise
+                res["violations"].append({"keys": ["unusable"], "fails": [["unusable", f"using the signals of shape {unit['shape']} raised {e!r} ({[repr(x) for x in getattr(e, 'exceptions', [])][:2]})"]],
+                                          "program": {"shape": unit["shape"], "part": part.__name__}, "choices": [], "trace": [], "outcome": "done"})
 
     async def case(self, env: Any, unit: dict, order: tuple, subs: tuple, res: dict) -> list:
         from asphalt.core import Event, Signal, UnboundSignal
